@@ -83,6 +83,11 @@ var logqlKeywords = map[string]bool{
 	"distinct": true, "drop": true, "keep": true,
 }
 
+var c20FunctionWords = []string{"rate", "rate_counter", "count_over_time", "bytes_rate", "bytes_over_time", "avg_over_time", "sum_over_time",
+	"min_over_time", "max_over_time", "stdvar_over_time", "stddev_over_time", "quantile_over_time", "first_over_time", "last_over_time",
+	"absent_over_time", "vector", "sum", "avg", "max", "min", "count", "stddev", "stdvar", "bottomk", "topk", "sort", "sort_desc",
+	"label_replace", "bytes", "duration", "duration_seconds", "ip"}
+
 var builtinContainerLabels = map[string]bool{
 	"container": true, "container_id": true, "container_name": true, "container_image": true,
 	"container_image_id": true, "container_command": true, "container_created": true,
@@ -265,6 +270,12 @@ func c20Gen(t *rapid.T) C20Case {
 				// A Docker label whose sanitised name is one of the labels derived from the
 				// container's metadata: the statement makes no exception for it.
 				k = rapid.SampledFrom([]string{"container.name", "container-id", "container/image", "container state", "container.image.id", "container_name", "container.status", "container command", "container"}).Draw(t, "builtin-key")
+			}
+			if rapid.IntRange(0, 7).Draw(t, "function-word-key") == 0 {
+				// Every function word of the language is a legal label name (the lexer turns it back
+				// into an identifier unless a call follows); a key may spell it with separators.
+				w := rapid.SampledFrom(c20FunctionWords).Draw(t, "function-word")
+				k = strings.ReplaceAll(w, "_", rapid.SampledFrom([]string{"_", ".", "-", "/", " "}).Draw(t, "function-word-sep"))
 			}
 			if rapid.IntRange(0, 7).Draw(t, "attribute-key") == 0 {
 				// Keys spelled like the daemon's own container attributes and list filters.
